@@ -4,6 +4,7 @@ import (
 	"bytes"
 	"fmt"
 	"io"
+	"log"
 	"os"
 	"path/filepath"
 	"runtime"
@@ -180,6 +181,8 @@ type c20Span struct {
 
 var c20Digest string
 var c20Goroutines int
+var c20LogPrefix string
+var c20LogFlags int
 
 func c20Run(c *fw.Ctx) fw.Outcome {
 	r := c.R
@@ -238,6 +241,10 @@ func c20Run(c *fw.Ctx) fw.Outcome {
 	// observed after the call returned is a fact)
 	runtime.Gosched()
 	time.Sleep(2 * time.Millisecond)
+	// process-wide state outside the package that a call may have touched: the standard logger the library logs through
+	if p, f := log.Prefix(), log.Flags(); p != c20LogPrefix || f != c20LogFlags {
+		return fw.Bad(key, nil, "the process-wide logger is left changed by the concurrent calls: prefix %q flags %d, it was prefix %q flags %d before the rounds", p, f, c20LogPrefix, c20LogFlags)
+	}
 	if n := atomic.LoadInt64(&c20LateReads); n > 0 {
 		return fw.Bad(key, nil, "%d reads were issued on a reader after the call it had been given to had returned: the call left something running that still uses its input", n)
 	}
@@ -286,6 +293,7 @@ func init() {
 			c20Digest = stateDigest()
 			datasegMark()
 			c20Goroutines = runtime.NumGoroutine()
+			c20LogPrefix, c20LogFlags = log.Prefix(), log.Flags()
 			return nil
 		},
 		Final: func(c *fw.Ctx) []fw.Outcome {
